@@ -56,7 +56,7 @@ CHECKS = {
     design="5/C20"),
  "C18": dict(
     text="Compare.tla defines isequal/isclose over the value universe (scalars, index arrays, n-d arrays, optionals, tuples); TLC checks reflexivity, symmetry, shape-awareness and element-awareness on all pairs of shapes of the scope; all pairs of arrays (same shape, same size/different shape, different sizes), element perturbations at every position, index arrays of every pair of lengths in several container pairings, optionals and tuples are executed in a build with assertions and in an NDEBUG build, and TraceOps.tla decides every returned boolean (an abort or exception is a crash event).",
-    note="Trusted: TLC, Compare.tla, drv_compare.cpp. either-typed operands are not driven. The shape-blind isequal/isclose were repaired by fix: commits.",
+    note="Trusted: TLC, Compare.tla, drv_compare.cpp. Either-typed operands (against each other and against plain values) and the apply_isequal / apply_isclose entry points (optionals, tuples, run-time lists of arrays) are driven too. The shape-blind isequal/isclose, the eps dropped for one either operand and the dereference of two empty optionals in apply_isequal/apply_isclose were repaired by fix: commits.",
     technique="TLA+ reference semantics + TLC law checking; trace validation of the real oracles in two build modes",
     design="5/C18"),
  "C16": dict(
